@@ -32,9 +32,13 @@ type VOther struct {
 func (v *VOther) Label() string { return v.Q }
 
 // three levels of anonymous embedding, the innermost with several fields of one kind
-// VHolder holds a two-name registered struct by value
+// VTwo is registered under two names; VHolder holds it by value
+type VTwo struct {
+	Q string `json:"q"`
+}
+
 type VHolder struct {
-	O   VOther `json:"o"`
+	O   VTwo   `json:"o"`
 	Tag string `json:"tag"`
 }
 
@@ -83,8 +87,8 @@ type VAll struct {
 func (a *VAll) EchoSelf() *VAll              { return a }
 func (a *VAll) EchoInner(in *VInner) *VInner { return in }
 func (a *VAll) MakeInner() *VInner           { return &VInner{S: "made", N: 42} }
-func (a *VAll) MakeOther() *VOther           { return &VOther{Q: "made"} }
-func (a *VAll) OtherByValue() VHolder        { return VHolder{O: VOther{Q: "held"}, Tag: "t"} }
+func (a *VAll) MakeTwo() *VTwo               { return &VTwo{Q: "made"} }
+func (a *VAll) HolderOfTwo() *VHolder        { return &VHolder{O: VTwo{Q: "held"}, Tag: "t"} }
 func (a *VAll) SumInts() int {
 	s := 0
 	for _, x := range a.Ints {
@@ -101,7 +105,10 @@ func c10register() {
 		r.RegisterUserdef(&zygo.RegisteredType{GenDefMap: true, Factory: func(env *zygo.Zlisp, h *zygo.SexpHash) (interface{}, error) { return &VAll{}, nil }}, true, "vall")
 		r.RegisterUserdef(&zygo.RegisteredType{GenDefMap: true, Factory: func(env *zygo.Zlisp, h *zygo.SexpHash) (interface{}, error) { return &VInner{}, nil }}, true, "vinner")
 		r.RegisterUserdef(&zygo.RegisteredType{GenDefMap: true, Factory: func(env *zygo.Zlisp, h *zygo.SexpHash) (interface{}, error) { return &VHolder{}, nil }}, true, "vholder")
-		r.RegisterUserdef(&zygo.RegisteredType{GenDefMap: true, Factory: func(env *zygo.Zlisp, h *zygo.SexpHash) (interface{}, error) { return &VOther{}, nil }}, true, "vother", "VOtherAlias") // two names: registry walks must still be deterministic (C20)
+		r.RegisterUserdef(&zygo.RegisteredType{GenDefMap: true, Factory: func(env *zygo.Zlisp, h *zygo.SexpHash) (interface{}, error) { return &VOther{}, nil }}, true, "vother")
+		// a type registered under two names (like the demo's nestouter/NestOuter): used by C20 only, where registry
+		// walks must pick the same name on every run
+		r.RegisterUserdef(&zygo.RegisteredType{GenDefMap: true, Factory: func(env *zygo.Zlisp, h *zygo.SexpHash) (interface{}, error) { return &VTwo{}, nil }}, true, "vtwo", "VTwoAlias")
 	})
 }
 
